@@ -45,6 +45,8 @@ type healthWorld struct {
 	ps     *atree.PersistentSlabStorage
 	kind   int
 	roots  []atree.SlabID // the root slabs of the top-level containers, known from construction
+	// the digester builder each top-level map was built with (reading it by key needs the same digests)
+	builders map[atree.SlabID]atree.DigesterBuilder
 }
 
 func hcMust(err error) {
@@ -58,7 +60,7 @@ func hcMust(err error) {
 func buildWorld(seed int64, kind int, committed bool) *healthWorld {
 	rng := rand.New(rand.NewSource(seed))
 	atree.VerifSetThreshold(256)
-	w := &healthWorld{ledger: hx.NewLedger(), kind: kind}
+	w := &healthWorld{ledger: hx.NewLedger(), kind: kind, builders: map[atree.SlabID]atree.DigesterBuilder{}}
 	w.ps = hx.NewStorage(w.ledger)
 	switch kind {
 	case hwArrays:
@@ -139,6 +141,7 @@ func buildMaps(rng *rand.Rand, w *healthWorld, collide bool) {
 			hcMust(err)
 		}
 		w.roots = append(w.roots, m.SlabID())
+		w.builders[m.SlabID()] = b
 	}
 }
 
@@ -429,6 +432,30 @@ func healthStream(cfg *Config) *hx.Stats {
 		st.Ops++
 		st.Hit("refs:" + strings.SplitN(label, "@", 2)[0])
 	}
+	// reading the elements THROUGH the containers after a referenced slab was deleted (dangling.go): every failure
+	// is a SlabNotFoundError (Fatal) naming the slab, some read reports it, nothing panics
+	runDeep := func(prog int, label string, hw *healthWorld, id atree.SlabID) {
+		curProg = prog
+		if len(st.Violations) >= 30 {
+			return
+		}
+		d := healthDeepRead(hw, id)
+		st.Ops += d.reads
+		st.Hit("deepread:" + strings.SplitN(label, "@", 2)[0])
+		st.Dist["deepread:requests"] += d.reads
+		st.Dist["deepread:slab-not-found"] += d.errs
+		for _, b := range d.bad {
+			v := hx.Violation{Property: "C20", Stream: "health", Seed: cfg.Seed, Program: prog, Trace: w.Path, Line: w.Lines,
+				What: fmt.Sprintf("reading through the containers after the referenced slab %s was deleted (%s): %s", hx.IDStr(id), label, b)}
+			if strings.Contains(b, "PANIC") {
+				v.Property = "*"
+			}
+			st.Violations = append(st.Violations, v)
+		}
+		if d.errs == 0 && len(d.bad) == 0 {
+			viol(prog, fmt.Sprintf("%d reads through the containers after the referenced slab %s was deleted (%s): none of them reports it", d.reads, hx.IDStr(id), label), "")
+		}
+	}
 	for p := 0; p < nWorlds; p++ {
 		seed := cfg.Seed*1000 + int64(p)
 		kind := p % hwKinds
@@ -483,10 +510,12 @@ func healthStream(cfg *Config) *hx.Stats {
 			runCheck(p, "delete-pending@"+hx.IDStr(id), x, nr, "SlabNotFound", "delete-referenced:pending-or-cached-nil")
 			runCheck(p, "delete-pending-nocount@"+hx.IDStr(id), x, -1, "SlabNotFound", "delete-referenced:pending-or-cached-nil")
 			runIter(p, "delete-pending@"+hx.IDStr(id), x)
+			runDeep(p, "delete-pending@"+hx.IDStr(id), x, id)
 			// ... committed (the deletion is then a nil entry of the read cache)
 			if err := x.ps.FastCommit(1); err == nil {
 				runCheck(p, "delete-committed@"+hx.IDStr(id), x, nr, "SlabNotFound", "delete-referenced:pending-or-cached-nil")
 				runIter(p, "delete-committed@"+hx.IDStr(id), x)
+				runDeep(p, "delete-committed@"+hx.IDStr(id), x, id)
 			}
 			// ... and physically, followed by a reload of everything that is left
 			if committed {
@@ -496,6 +525,7 @@ func healthStream(cfg *Config) *hx.Stats {
 				_ = y.ps.BatchPreload(y.ledger.SortedIDs(), 2)
 				runCheck(p, "delete-physical@"+hx.IDStr(id), y, nr, "SlabNotFound", "delete-referenced:physical")
 				runIter(p, "delete-physical@"+hx.IDStr(id), y)
+				runDeep(p, "delete-physical@"+hx.IDStr(id), y, id)
 			}
 		}
 		// (b) an unreferenced slab beyond the expected root count
